@@ -558,9 +558,10 @@ let check_P line toks =
 let xcheck () =
   let fens = List.tl (List.tl (List.tl (Array.to_list Sys.argv))) in
   List.iter (fun f ->
-    let r = match from_fen !keys (bytes_of_string f) with
+    let k0 = { zk_piece = (fun c t s -> n_of_int (1 + (match c with White -> 0 | Black -> 1))); zk_castle = (fun _ _ -> n_of_int 0); zk_ep = (fun _ -> n_of_int 0); zk_black = n_of_int 5 } in
+    let r = match from_fen k0 (bytes_of_string f) with
       | Ok b -> Printf.sprintf "%s %d %s %s %s" (dec_of_n b.b_hash)
-                  (match legal_moves !keys b with Ok l -> List.length l | _ -> 999)
+                  (match legal_moves k0 b with Ok l -> List.length l | _ -> 999)
                   (dec_of_n b.b_pinned) (dec_of_n b.b_checks) (match get_status b with Ok BOngoing -> "0" | Ok (BCheckMated _) -> "1" | Ok BStalemate -> "2" | Ok _ -> "3" | _ -> "9")
       | _ -> "rejected" in
     print_endline r) fens
@@ -579,6 +580,11 @@ let () =
         | "S" :: toks -> check_S line toks
         | "F" :: toks -> check_F line toks
         | "N" :: toks -> check_N line toks
+        | "X" :: toks ->
+          let fs = fields_of toks in
+          bump "X-records";
+          report "X" (match List.assoc_opt "id" fs with Some x -> x | None -> "?") "harness-crash" "no panic outside the guarded observations"
+            (match List.assoc_opt "where" fs with Some x -> x | None -> "?") line
         | "M" :: toks -> check_M line toks
         | "T" :: toks -> check_T line toks
         | "P" :: toks -> check_P line toks
